@@ -523,6 +523,10 @@ def combos(tier, curve, level):
         cross("pub", [a for a in pub_a if a[0] not in long_a], pub_b)
         cross("vkpre", pre_a[:1], [pre_b[0], pre_b[2], pre_b[3]])
         cross("vkpre", pre_a[1:], [pre_b[1]])
+    elif level == "short":
+        # the short operations on a public-key point against every B, and the table build against one full multiplication
+        cross("pub", [a for a in pub_a if a[0] not in long_a], pub_b)
+        cross("gen", gen_a[:1], gen_b[:1])
     else:  # core / lean
         cross("gen", [gen_a[0], gen_a[2]] if level == "core" else [gen_a[0]], [gen_b[0], gen_b[5]])
         cross("pub", [pub_a[0], pub_a[1]], [pub_b[0], pub_b[1], pub_b[3], pub_b[4], pub_b[7]])
@@ -560,7 +564,7 @@ def plan_line(tier):
 
 def plan_instr(tier):
     if tier == "quick":
-        return []
+        return [("SECP112r1", "short", "instr", False)]
     return [("SECP112r1", "quick", "instr", False)]
 
 
@@ -790,9 +794,9 @@ def parts(tier):
         Part("lock_share", check=check_share_schedule, bulk=share_bulk, quick=(2, 0), thorough=(4, 0), exhaustive=True),
         Part("lock_sampled", check=check_lock_sampled, strategy=strat_lock_sampled, quick=(4, 100), thorough=(16, 1500)),
     ]
+    ps.insert(1, Part("sweep_instr", check=check_preempt, enum=sweep_enum(plan_instr), quick=(8, 0), thorough=(16, 0), exhaustive=True))
     if tier == "thorough":
         ps += [
-            Part("sweep_instr", check=check_preempt, enum=sweep_enum(plan_instr), quick=(1, 0), thorough=(16, 0), exhaustive=True),
             Part("sweep_instr_helpers", check=check_preempt, enum=sweep_enum(plan_instr_helpers), quick=(1, 0), thorough=(16, 0), exhaustive=True),
             Part("lock_2r2w", check=check_lock_schedule, bulk=lock_bulk("lock_2r2w", "RRWW"), quick=(1, 0), thorough=(16, 0), exhaustive=True),
             Part("lock_3r1w", check=check_lock_schedule, bulk=lock_bulk("lock_3r1w", "RRRW"), quick=(1, 0), thorough=(16, 0), exhaustive=True),
